@@ -1056,6 +1056,35 @@ func (c *Ctx) delAllQueued(rule string) {
 	}
 }
 
+// isCryptoRandReader: v is crypto/rand.Reader, or a package-level reader
+// variable of the repository that is initialised with it (an injectable
+// entropy source).
+func (c *Ctx) isCryptoRandReader(v ssa.Value) bool {
+	strip := func(v ssa.Value) ssa.Value {
+		for {
+			if mi, ok := v.(*ssa.MakeInterface); ok {
+				v = mi.X
+				continue
+			}
+			if ci, ok := v.(*ssa.ChangeInterface); ok {
+				v = ci.X
+				continue
+			}
+			return v
+		}
+	}
+	g := loadOfGlobal(strip(v))
+	if g == nil || g.Pkg == nil {
+		return false
+	}
+	if c.P.ByPath[g.Pkg.Pkg.Path()] != nil {
+		if ig := loadOfGlobal(strip(GlobalInit(g))); ig != nil {
+			g = ig
+		}
+	}
+	return g.Pkg != nil && g.Pkg.Pkg.Path() == "crypto/rand" && g.Name() == "Reader"
+}
+
 // secretEntropy: every secret the library mints (confirm/recover tokens,
 // remember tokens, one-time passwords, recovery codes, SMS codes, e-mail
 // authorisation tokens, the OAuth2 state) is drawn from crypto/rand, with the
